@@ -110,6 +110,45 @@ def cxxio_pass(prop, tier, seed):
     return viols, obs, obs["cxx_cases"]
 
 
+WIN_HANDLE_CLASSES = {
+    "C10": ("win-std-handles", "win-start-failed", "win-process-handle"),
+    "C11": ("win-handle-list-not-in-force", "win-handle-list-missing", "win-handle-list-foreign", "win-foreign-handle-made-inheritable"),
+    "C05": ("win-closes-callers-handle", "win-thread-handle"),
+}
+
+
+def win_handles_pass(prop, tier, seed):
+    """Windows halves of C10 / C11 / C05 as far as they show at the CreateProcessW boundary: process.windows.c runs
+    against the stubbed Win32 layer of the C18 engine (src/win.c --handles); what it passes as standard handles,
+    inheritance list and flags, and which handles it closes, is compared with the handles it was given."""
+    import os
+    from concurrent.futures import ThreadPoolExecutor
+    binp = build.build_win("asan")
+    env = dict(os.environ)
+    env.update(core.SAN_ENV)
+    nw = 4
+
+    def work(w):
+        return core.run_timed([binp, "--handles", str(w), str(nw), tier, str(seed)], env, 600)
+    with ThreadPoolExecutor(nw) as ex:
+        outs = list(ex.map(work, range(nw)))
+    obs = {"win_handle_cases": 0}
+    viols = []
+    mine = WIN_HANDLE_CLASSES[prop]
+    for rc, out, err in outs:
+        if rc == 124:
+            obs["harness_timeouts"] = obs.get("harness_timeouts", 0) + 1
+        elif rc not in (0, 1):
+            viols.append((prop, "%s/winh/crash" % prop, "Windows handle harness died rc=%d: %s" % (rc, err[-500:]), {"seed": seed, "module": "winh"}, [err[-2000:]]))
+        for line in out.splitlines():
+            f = line.split("\t")
+            if f[0] == "V" and len(f) >= 4 and f[1] in mine:
+                viols.append((prop, "%s/winh/%s" % (prop, f[1]), "%s [%s, Windows source on stubs]" % (f[3], f[2]), {"seed": seed, "module": "winh", "case": f[2]}, [line[:400]]))
+            elif f[0] == "H":
+                obs["win_handle_cases"] += int(f[1])
+    return viols, obs, obs["win_handle_cases"]
+
+
 def rt_pass(prop, tier, seed):
     """C08, real-clock cross-check of the virtual-time engine (src/rt.c): real clock, real kernel, children that
     live a given number of ms. Lower bounds are judged; a result later than bound + 1.5 s only counts as slow."""
@@ -310,7 +349,9 @@ CHECKS = {
         "(poll and wait grids with expired deadlines, random call sequences, drain/run, stop and destroy in every state) whenever "
         "every handle of the case was destroyed again; non-trivial = fault fired or fault-free scenario",
         {"ledger_checks": 3000, "faults_fired": 3000, "sites": 2000, "config_ledger_checks": 2000,
-         "sequence_ledger_checks": 2500, "sequence_sources": 6}, assumptions=KERNEL_TRUST),
+         "sequence_ledger_checks": 2500, "sequence_sources": 6, "win_handle_cases": 5000},
+        assumptions=KERNEL_TRUST + ["Windows half only at the CreateProcessW boundary: the thread handle is closed once, no handle of the caller is closed"],
+        extra=win_handles_pass),
     "C12": scen_check(
         "eng_fault", "fault_enumeration",
         "same campaign with random initial signal masks and dispositions (default/ignore/handler for SIGINT, SIGUSR1, SIGUSR2): "
@@ -324,15 +365,18 @@ CHECKS = {
         "tiers: 262 configurations x 8 masks = 2096 cases); the helper child reports "
         "(st_dev, st_ino, st_rdev, mode, access mode) of its descriptors 0/1/2 as found at exec, compared with the object the "
         "options designate; parent-side pipe ends and read/write EPIPE behaviour checked; non-trivial = a child reported",
-        {"streams_checked": 6000, "configs": 262, "pipes_checked": 1000, "nulldev_fallbacks": 400},
-        assumptions=KERNEL_TRUST, exhaustive_thorough=True, exhaustive_quick=True),
+        {"streams_checked": 6000, "configs": 262, "pipes_checked": 1000, "nulldev_fallbacks": 400, "win_handle_cases": 5000},
+        assumptions=KERNEL_TRUST + ["Windows half only at the CreateProcessW boundary: process.windows.c on stubbed Win32 functions; the standard handles it passes must be the ones it was given"],
+        exhaustive_thorough=True, exhaustive_quick=True, extra=win_handles_pass),
     "C11": scen_check(
         "eng_ident", "exploration",
         "the parent opens 1-300 extra descriptors (files, pipes, sockets; half without close-on-exec) at random numbers up to "
         "limit-1 (always including limit-1 in a third of the cases) under RLIMIT_NOFILE in {64,256,1024,4096,20000}, with 8 "
         "redirect families and closed std descriptors; the helper lists /proc/self/fd before opening anything; non-trivial = "
         "a child reported its table; every case draws its own descriptor set, so distinct = cases (concurrent starts from threads are exercised by C20's engine)",
-        {"children_checked": 600, "noncloexec_extra": 2000, "limit_minus_1_cases": 100, "limits": 3}, assumptions=KERNEL_TRUST),
+        {"children_checked": 600, "noncloexec_extra": 2000, "limit_minus_1_cases": 100, "limits": 3, "win_handle_cases": 5000},
+        assumptions=KERNEL_TRUST + ["Windows half only at the CreateProcessW boundary: the inheritance list must be in force (bInheritHandles, EXTENDED_STARTUPINFO_PRESENT, attribute list) and hold exactly the three stream handles and the exit handle"],
+        extra=win_handles_pass),
     "C03": scen_check(
         [("eng_ident", "asan"), ("eng_fault", "asan-nd")], "exploration",
         "argv of 0-59 strings over bytes 1-255 (empty, blanks, quotes, backslashes, '=', invalid UTF-8, up to 70 kB each), "
